@@ -170,7 +170,9 @@ class _RunnerIterator(iter_utils.MultiplexIterator[_ValueT]):
         ignore_error=self._ignore_error,
         with_result=self._with_result,
         with_agg_state=self._with_agg,
-        state=state.agg_state,
+        # The checkpoint can be restored more than once, do not share its state
+        # with the (possibly in-place) aggregations of this run.
+        state=copy.deepcopy(state.agg_state),
     )
 
   @property
